@@ -24,6 +24,21 @@ class Crash:
         top = frames[:2]
         self.signature = '%s:%s' % (kind, ';'.join(top) if top else 'no-cppcheck-frame')
 
+    def key(self, digest=''):
+        """Violation key: the top two cppcheck frames, prefixed for UBSan reports by the normalised
+        diagnostic and for uncaught exceptions by the exception type (so that two different defects
+        inside one long function get different keys); no whitespace."""
+        tag = ''
+        if self.kind == 'ubsan':
+            m = self.detail.split(': ', 1)[-1] if ': ' in self.detail else self.detail
+            m = m.split(',')[0]
+            m = re.sub(r'\d+', 'N', m)
+            tag = 'ubsan(%s):' % re.sub(r'\s+', '_', m.strip())[:70]
+        elif self.kind.startswith('exception:'):
+            tag = self.kind.split(':', 1)[1] + ':'
+        fr = ';'.join(self.frames[:2]) if self.frames else 'no-cppcheck-frame(%s):%s' % (self.kind, digest)
+        return 'crash:' + tag + fr
+
     def __repr__(self):
         return 'Crash(%s)' % self.signature
 
